@@ -124,10 +124,16 @@ PROPS = {
                  "spec's own rules by a machine-checked witness (known finding). The proved oracle is tied to /repo by a differential run of "
                  "subtype, subtype_with_config, equal, subtype_check_all, service_compatible, service_compatibility_report and service_equal, "
                  "including query sequences sharing one memo, plus direct predicates (reflexivity, equal => subtype both ways, invariance "
-                 "under renaming/reordering of definitions, report empty iff compatible, history independence, transitivity on null-free types).",
-        "note": "Not proved in Coq: that the memoising Rust algorithm (subtype_, with the repaired memo restoration) computes sub_dec for all "
-                "inputs and histories -- this part is differential only (the oracle being proved makes every disagreement a real failing "
-                "input). TypeInner::Knot/Unknown and the recursion-depth limit are outside the model. Trusted: Coq kernel, extraction, glue.",
+                 "under renaming/reordering of definitions and of field lists, report empty iff compatible, history independence, "
+                 "transitivity on null-free types). THE ALGORITHM ITSELF: Memo.v mirrors subtype_ / equal_impl as they are (gamma as a set, "
+                 "trail, forget_since, left-name-first unfolding, premise order, both probes of the special opt rule, OptReport); "
+                 "C05_memo_history / C05_memo_equal_history prove by parameterised co-induction that along EVERY history of queries "
+                 "sharing one gamma -- whatever succeeded, failed or was probed before -- each answer equals sub_dec / eq_dec and gamma "
+                 "stays inside the relation. The mirror is compared with the code on answers AND the exact final contents of gamma (m.c05.memo).",
+        "note": "Not proved: termination of the memoising algorithm (fuel is absorbing and excluded by hypothesis `answered`), the "
+                "all-errors variant subtype_collect_ (differential only: c05.checkall / seq_checkall / report_agrees against the proved "
+                "oracle). TypeInner::Knot/Unknown and the recursion-depth limit are outside the model; field lookup by HashMap is modelled "
+                "as first match (same thing for unique ids). Trusted: Coq kernel, extraction, glue.",
         "props_file": "props/C05.v",
         "shards": (4, 16),
         "rule": "cases: fixed corpus (transitivity witness, stale-memo witness, recursive lists, variants, references) then random "
@@ -135,7 +141,9 @@ PROPS = {
                 "pairs related by random upgrade steps, near misses and unrelated types; two-version environments (definition-wise mutated "
                 "copies); query sequences in random order with repetitions sharing one Gamma; .did programs through the upgrade entry points "
                 "(exercising merge_type renaming); thorough adds exhaustive ordered pairs over a bounded constructor set with <= 2 "
-                "definitions. Non-trivial = pair mentions a definition, an opt, or has > 4 nodes; distinct = distinct (op, arguments).",
+                "definitions. Also: the same recursive type spelled with its name at another point of the cycle (re-anchored definitions), "
+                "field / method lists in random (unsorted) order, memo-stress histories through the mirror in all three modes. "
+                "Non-trivial = pair mentions a definition, an opt, or has > 4 nodes; distinct = distinct (op, arguments).",
         "assumptions": COMMON_ASSUME + ["Knot (Rust-native recursive types) and Unknown are never generated"],
         "trusted_base": ["modelled, not verified: HashMap/HashSet (as finite maps/sets), RecursionDepth guard (not modelled)"],
     },
